@@ -1,3 +1,85 @@
 package main
 
-func minimiseOther(cur *Violation, orig *Violation, bud *minBudget, holds func(*Violation) bool) {}
+// engine dispatch for replay and minimisation
+
+import (
+	"encoding/json"
+	"fmt"
+	"os"
+
+	"verifsim/simrt"
+)
+
+type engineCtx interface {
+	check(cfg simrt.Config) ([]mismatch, simrt.Stats, string)
+}
+
+func ctxFor(engine string, raw json.RawMessage) engineCtx {
+	bad := func(err error) {
+		fmt.Fprintln(os.Stderr, "worker: bad workload:", err)
+		os.Exit(2)
+	}
+	switch engine {
+	case "wgsim":
+		var wl wlWG
+		if err := json.Unmarshal(raw, &wl); err != nil {
+			bad(err)
+		}
+		return newWGCtx(&wl)
+	case "plainsim":
+		var wl wlPlain
+		if err := json.Unmarshal(raw, &wl); err != nil {
+			bad(err)
+		}
+		return newPlainCtx(&wl)
+	}
+	fmt.Fprintln(os.Stderr, "worker: unknown engine", engine)
+	os.Exit(2)
+	return nil
+}
+
+func engineCandidates(engine string, raw json.RawMessage) []json.RawMessage {
+	switch engine {
+	case "wgsim":
+		return wgCandidates(raw)
+	case "plainsim":
+		var wl wlPlain
+		if json.Unmarshal(raw, &wl) != nil {
+			return nil
+		}
+		var out []json.RawMessage
+		for _, cm := range modelCandidates(wl.Model) {
+			b, _ := json.Marshal(&wlPlain{Model: cm})
+			out = append(out, b)
+		}
+		return out
+	}
+	return nil
+}
+
+func engineDescribe(engine string, raw json.RawMessage) string {
+	switch engine {
+	case "wgsim":
+		var wl wlWG
+		if json.Unmarshal(raw, &wl) == nil && wl.Model != nil {
+			return wl.Model.describe()
+		}
+	case "plainsim":
+		var wl wlPlain
+		if json.Unmarshal(raw, &wl) == nil && wl.Model != nil {
+			return wl.Model.describe()
+		}
+	}
+	return ""
+}
+
+func engineKnown(v *Violation, x mismatch) string {
+	switch v.Engine {
+	case "wgsim":
+		var wl wlWG
+		if json.Unmarshal(v.Workload, &wl) == nil && wl.Model != nil {
+			return wgKnown(v.Property, x, &wl, buildRef(wl.Model))
+		}
+	}
+	return ""
+}
